@@ -1,5 +1,6 @@
 import Driver.Proto
 import Arimaa.Impl.Text
+import Arimaa.Impl.Panics
 
 /-!
 Implementation-model driver: answers the line protocol of `Driver/Proto.lean` with the L1 model.
@@ -89,18 +90,22 @@ def showTerm : Option Terminal → String
 def hexBoard (b : Board) : String := "/".intercalate ((wordsOfBoard b).map toHex16)
 
 def observe (s : GameState) : String :=
-  let vanrRaw := s.validActionsNoRep
-  let va := sortStrings (s.validActions.map stringOfAction)
-  let vanr := sortStrings (vanrRaw.map stringOfAction)
-  let pv := sortStrings (vanrRaw.map fun a =>
-    stringOfAction a ++ ":" ++ match s.trappedAnimalForAction a with
+  let pVA := panics_valid_actions s
+  let pNR := panics_valid_actions_no_rep s
+  let vanrRaw := if pNR then [] else s.validActionsNoRep
+  let va := if pVA then "PANIC" else joinOr (sortStrings (s.validActions.map stringOfAction))
+  let vanr := if pNR then "PANIC" else joinOr (sortStrings (vanrRaw.map stringOfAction))
+  let pv := if pNR then "PANIC" else joinOr (sortStrings (vanrRaw.map fun a =>
+    stringOfAction a ++ ":" ++ (if panics_preview s a then "PANIC" else match s.trappedAnimalForAction a with
       | none => "-"
-      | some (sq, p, g) => String.ofList (showSquare sq) ++ String.ofList [Gen.pieceLetter p] ++ (if g then "g" else "s"))
+      | some (sq, p, g) => String.ofList (showSquare sq) ++ String.ofList [Gen.pieceLetter p] ++ (if g then "g" else "s"))))
   let pbs := match s.phase with
-    | .play pp => joinOr ((List.range (pp.step + 1)).map fun i => hexBoard (s.pieceBoardForStep i))
+    | .play pp =>
+      if panics_current_step s then "PANIC" else
+      joinOr ((List.range (pp.step + 1)).map fun i => if panics_pbs s i then "PANIC" else hexBoard (s.pieceBoardForStep i))
     | .place => "-"
   let placebit := match s.phase with
-    | .place => toHex16 s.board.placementBit.toNat
+    | .place => if s.board.placementBitPanics then "PANIC" else toHex16 s.board.placementBit.toNat
     | .play _ => "-"
   let at_ := String.ofList ((List.range 64).map fun i => match s.board.pieceTypeAtSquare i with
     | some p => Gen.pieceLetter p
@@ -109,10 +114,16 @@ def observe (s : GameState) : String :=
     (Gen.Piece_ALL.flatMap fun p => [toHex16 (s.board.bitsForPiece p true).toNat, toHex16 (s.board.bitsForPiece p false).toNat,
       toHex16 (s.board.bitsByPieceType p).toNat]) ++
     [toHex16 (s.board.playerPieceMask true).toNat, toHex16 (s.board.playerPieceMask false).toNat])
-  let scratch := match s.phase with
-    | .play pp => zWithPPS (zFromPieceBoard s.board s.p1Turn pp.step) pp.pps
-    | .place => s.hash
-  s!"va={joinOr va} vanr={joinOr vanr} term={showTerm s.isTerminal} cp0={if s.canPass false then 1 else 0} cp1={if s.canPass true then 1 else 0} hm={showTerm (s.hasMove s.board)} thash={toHex16 s.transpositionHash.toNat} scratch={toHex16 scratch.toNat} pv={joinOr pv} pbs={pbs} placebit={placebit} at={at_} views={views.replace " " "/"} show={pctEncode (String.ofList (showState s))}"
+  let thash := if panics_transposition_hash s then "PANIC" else toHex16 s.transpositionHash.toNat
+  let scratch := if panics_transposition_hash s then "PANIC" else match s.phase with
+    | .play pp => toHex16 (zWithPPS (zFromPieceBoard s.board s.p1Turn pp.step) pp.pps).toNat
+    | .place => toHex16 s.hash.toNat
+  let term := if panics_is_terminal s then "PANIC" else showTerm s.isTerminal
+  let cp0 := if panics_can_pass s false then "PANIC" else (if s.canPass false then "1" else "0")
+  let cp1 := if panics_can_pass s true then "PANIC" else (if s.canPass true then "1" else "0")
+  let hm := if panics_has_move s then "PANIC" else showTerm (s.hasMove s.board)
+  let shown := if panics_display s then "PANIC" else pctEncode (String.ofList (showState s))
+  s!"va={va} vanr={vanr} term={term} cp0={cp0} cp1={cp1} hm={hm} thash={thash} scratch={scratch} pv={pv} pbs={pbs} placebit={placebit} at={at_} views={views.replace " " "/"} show={shown}"
 
 def outcomeStr {α} (f : α → String) : Outcome α → String
   | .ok a => "ok " ++ f a
@@ -139,10 +150,24 @@ def handle (cur : Option GameState) (line : String) : Option GameState × String
   | ["T", a] =>
     match cur, actionOfString a with
     | some s, some act =>
-      let s' := s.takeAction act
-      if s'.moveNo > usizeMax then (cur, "panic") else (cur, showState (rawOfState s'))
+      if panics_take s act then (cur, "panic") else (cur, showState (rawOfState (s.takeAction act)))
     | _, _ => (cur, "bad-op")
   | ["I"] => (cur, showState (rawOfState GameState.initial))
+  | ["B", i] =>
+    match cur, i.toNat? with
+    | some s, some i => (cur, if panics_pbs s i then "PANIC" else hexBoard (s.pieceBoardForStep i))
+    | _, _ => (cur, "bad-op")
+  | ["N"] =>
+    match cur with
+    | some s => (cur, if panics_current_step s then "PANIC" else toString s.step)
+    | none => (cur, "no-state")
+  | ["X", a] =>
+    match cur, actionOfString a with
+    | some s, some act =>
+      (cur, if panics_preview s act then "PANIC" else match s.trappedAnimalForAction act with
+        | none => "-"
+        | some (sq, p, g) => String.ofList (showSquare sq) ++ String.ofList [Gen.pieceLetter p] ++ (if g then "g" else "s"))
+    | _, _ => (cur, "bad-op")
   | ["P", t] =>
     match pctDecode t with
     | some txt => (cur, outcomeStr (fun s => showState (rawOfState s)) (parseState txt.toList))
